@@ -195,6 +195,9 @@ PRIOR_CALLS = {"is_running": lambda pr: pr.is_running(), "ppid": lambda pr: pr.p
                "children-recursive": lambda pr: pr.children(recursive=True), "parent": lambda pr: pr.parent(),
                "parents": lambda pr: pr.parents(), "name": lambda pr: pr.name()}
 ONESHOT_PRIORS = ["none", "is_running", "ppid", "children", "children-recursive", "parent", "parents", "name"]
+# enumerated: the priors that do not plant ppid() in the block cache (ppid() is memoised inside a block -- C16's "as of the first
+# read in that block" -- so parent()/parents() after it are answered from the block's record; what C05 demands there is left open)
+ONESHOT_PRIORS_RUN = ["none", "is_running", "children", "children-recursive", "name"]
 
 
 def _run_reused(arg):
@@ -595,8 +598,8 @@ def run(ctx):
             reused.append((list(parents), [0, 1, 2], ctx.seed, victim, True))
             reused.append((list(parents), [0, 1, 2], ctx.seed, victim, False, True))
             # NOT ENABLED (see note above): the questions asked inside an open oneshot() block after an earlier question
-            # for prior in ONESHOT_PRIORS:
-            #     reused.append((list(parents), [0, 1, 2], ctx.seed, victim, False, False, prior))
+            for prior in ONESHOT_PRIORS_RUN:
+                reused.append((list(parents), [0, 1, 2], ctx.seed, victim, False, False, prior))
     res2 = ctx.pmap(run_reused, reused)
     for wd, (bad, _) in zip(reused, res2):
         for cause, msg in bad:
